@@ -266,6 +266,22 @@ impl Runner {
                 vec![]
             }
         };
+        // C13: a body above the item limit is refused with 'too large' whatever the opcode (loud or quiet), and — the
+        // request not being executed — is no event for the per-key reference semantics
+        if h.body_len > self.limit {
+            let st = out.strip_prefix("resp ").and_then(|r| wire::unhex(r.split(' ').next().unwrap())).and_then(|b| wire::parse_resp(&b).ok()).map(|r| r.status);
+            *self.status_hist.entry(format!("oversize:{:?}", st)).or_insert(0) += 1;
+            self.cur_sig.push((h.opcode, st.unwrap_or(0xffff)));
+            if st != Some(0x0003) {
+                self.oracle.violations.push(oracle::Violation { props: vec!["C13"], line: lineno, msg: format!("a request (opcode {:#x}) whose body of {} bytes exceeds the item limit {} was answered {:?}, not 'too large'", h.opcode, h.body_len, self.limit, out.chars().take(80).collect::<String>()) });
+            } else if let Some(b) = out.strip_prefix("resp ").and_then(|r| wire::unhex(r.split(' ').next().unwrap())) {
+                self.wellformed_checked += 1;
+                if let Err(e) = oracle::wellformed(&h, &key, &b) {
+                    self.oracle.violations.push(oracle::Violation { props: vec!["C11"], line: lineno, msg: format!("response to opcode {:#x} malformed: {}", h.opcode, e) });
+                }
+            }
+            return;
+        }
         if let Some(rest) = out.strip_prefix("resp ") {
             let tok = rest.split(' ').next().unwrap();
             if tok == "silent" {
@@ -436,10 +452,16 @@ impl Runner {
     pub fn generate(&mut self, profile: &str, seed: u64, count: u64) {
         let p = gen::profile(profile);
         let mut master = Rng::new(seed);
+        // programs under a limit above 64 KiB carry values (and dumps) of 100 KB and more: a bounded number per run
+        let mut big_left = 60u32;
         for _ in 0..count {
             let mut rng = master.fork();
             // now and then a limit above 64 KiB: bodies whose length does not fit 16 bits
-            let limit: u32 = if rng.chance(1, 25) { 80000 } else { *rng.pick(&[1024u32, 2048, 4096, 65536]) };
+            let big = rng.chance(1, 25) && big_left > 0;
+            if big {
+                big_left -= 1;
+            }
+            let limit: u32 = if big { 80000 } else { *rng.pick(&[1024u32, 2048, 4096, 65536]) };
             self.exec(&format!("new {}", limit));
             let mut g = GenState::new(&mut rng, &p, limit);
             let n = rng.range(p.len.0, p.len.1);
